@@ -27,10 +27,23 @@ Definition rd_case07 (s : list N) : option case07 :=
   | _ => None
   end.
 
+(* what a handler may do to the prepared reply before it fails (every fourth case, chosen by the source number): make it a
+   separate response -- Confirmable, with an id of the server's own -- and set an option.  apply_from_error must leave
+   all of that alone. *)
+Definition tamper (src : N) (rq : request) : request :=
+  if src mod 4 =? 3 then
+    match response rq with
+    | Some r => mkRequest (message rq)
+                  (Some (set_option (set_mid (set_hdr r (set_type (hdr r) Confirmable)) ((src * 7) mod 65536)) 4 [[src mod 256]]))
+                  (source rq)
+    | None => rq
+    end
+  else rq.
+
 Definition out07 (c : case07) : outcome (option packet * request * bool) :=
   do r0 <- response_new (c_req c);
   do rq <- from_packet (c_req c) (c_src c);
-  do rb <- apply_from_error rq (c_err c);
+  do rb <- apply_from_error (tamper (c_src c) rq) (c_err c);
   Ok (r0, fst rb, snd rb).
 
 Definition wr_request (r : request) : list N :=
@@ -70,7 +83,7 @@ Definition spec_apply (rq : request) (e : handling_error) : request * bool :=
 
 Definition spec07 (c : case07) : list N :=
   let r0 := spec_response (c_req c) in
-  let rq := mkRequest (c_req c) r0 (Some (c_src c)) in
+  let rq := tamper (c_src c) (mkRequest (c_req c) r0 (Some (c_src c))) in
   let '(rq', b) := spec_apply rq (c_err c) in
   0 :: wr_optpkt r0 ++ wr_request rq' ++ [b2n b].
 
